@@ -1,7 +1,50 @@
-(* commands for the tree model *)
+(* commands for the tree model (coq/Model/TreeModel.v). Glue only:
+   printing with the model's [show], sorting, duplicate count, FNV. *)
 open Bbm_model
 open Bbm_util
 
+let params_of s = match split ',' s with
+  | [a; b] -> (n_of_string a, n_of_string b)
+  | _ -> failwith "bad params"
+
+(* wrappers.rs tree_progs: comp.show(Some(params)) inside the harvester *)
+let show_all params (progs : comp_prog list) : string list =
+  List.rev (List.rev_map (fun p ->
+      match show p (Some params) with
+      | Some s -> string_of_str s
+      | None -> raise Model_panic) progs)
+
+let count_dups (l : string list) : int =
+  let h = Hashtbl.create 1024 in
+  let d = ref 0 in
+  List.iter (fun s -> if Hashtbl.mem h s then incr d else Hashtbl.add h s ()) l;
+  !d
+
+let summary (l : string list) : string =
+  let sorted = List.sort compare l in
+  string_of_int (List.length l) ^ "|" ^ fnv (String.concat "\n" sorted)
+  ^ "|dups=" ^ string_of_int (count_dups l)
+
+let tree_strings params halt lim =
+  let params = params_of params in
+  show_all params (unwrap (build_tree params (halt = "1") (n_of_string lim)))
+
+let cmd_tree params halt lim = summary (tree_strings params halt lim)
+
+let cmd_treedump params halt lim =
+  String.concat ";" (List.sort compare (tree_strings params halt lim))
+
+let cmd_treesub params halt lim instr =
+  let params = params_of params in
+  let i = match split ',' instr with
+    | [co; sh; tr] -> ((n_of_string co, sh = "1"), n_of_string tr)
+    | _ -> failwith "bad instr" in
+  summary (show_all params
+             (List.rev (unwrap (build_subtree params (halt = "1") (n_of_string lim) i []))))
+
 let dispatch (fields : string list) : string option =
   match fields with
+  | ["tree"; params; halt; lim] -> Some (cmd_tree params halt lim)
+  | ["treedump"; params; halt; lim] -> Some (cmd_treedump params halt lim)
+  | ["treesub"; params; halt; lim; instr] -> Some (cmd_treesub params halt lim instr)
   | _ -> None
